@@ -140,6 +140,24 @@ def generate(ctx):
         ex, ey = gen.hexarg(gen.enc(x)), gen.hexarg(gen.enc(y))
         ctx.add('compare %s %s' % (ex, ey), meta=('cmp', x, y))
         ctx.add('compare %s %s' % (ey, ex), meta=('cmp', y, x))
+    # the byte walker on buffers that are NOT valid encodings (prefixes, one byte changed), against a valid partner and
+    # against each other: C04 says nothing about them, but the offset-faithful model (CompareWalk.v) does, including
+    # the errors and the panics of index expressions; this stream only feeds the correspondence tie
+    small = [v for v in ds if len(gen.enc(v)) <= 100]
+    for v in r.sample(small, min(len(small), ctx.scale(150, 4000))):
+        e = gen.enc(v)
+        w = r.choice(small)
+        ew = gen.enc(mutate(ctx, v)) if r.random() < 0.6 else gen.enc(w)
+        muts = [e[:i] for i in range(len(e))] if len(e) <= 32 else [e[:r.randrange(len(e))] for _ in range(10)]
+        for _ in range(14):
+            i = r.randrange(len(e))
+            muts.append(e[:i] + bytes([r.choice([0, 1, 4, 0x10, 0x20, 0x30, 0x40, 0x50, 0x7f, 0x80, 0xff, e[i] ^ 1, e[i] ^ 0x10, (e[i] + 1) & 0xff])]) + e[i + 1:])
+        for m in muts:
+            if not m or m[0] not in (0x80, 0x40, 0x20):
+                continue            # would be read as JSON text
+            ctx.add('compare %s %s' % (gen.hexarg(m), gen.hexarg(ew)), kind='malformed')
+            ctx.add('compare %s %s' % (gen.hexarg(ew), gen.hexarg(m)), kind='malformed')
+            ctx.add('compare %s %s' % (gen.hexarg(m), gen.hexarg(m)), kind='malformed')
     # the seven cross-kind ranks, nested and at top level
     reps = [('b', False), ('b', True), ('u', 5), ('s', b'x'), ('o', [(b'k', ('n',))]), ('a', [('n',)]), ('n',)]
     for x in reps:
